@@ -152,7 +152,8 @@ package deps
 
 //@ # nats subscriptions: the subscribe calls are recorded by ghost statements at the call sites
 //@ trusted func (c res.Conn) ChanSubscribe(subject string, ch chan *nats.Msg) (sub *nats.Subscription, err error)
-//@   modifies alloc
+//@   modifies alloc, ghost.subopen
+//@   ensures imp(isNil(err), sub != nil && subopen == old(subopen) + 1) && imp(!isNil(err), subopen == old(subopen))
 //@ trusted func (c res.Conn) ChanQueueSubscribe(subject string, queue string, ch chan *nats.Msg) (sub *nats.Subscription, err error)
 //@   modifies alloc
 //@ trusted func errors.New(text string) (err error)
@@ -191,3 +192,47 @@ package deps
 //@   ensures -1 <= r && r < len(s)
 //@   ensures imp(r >= 0, s[r] == c && forall(k, r+1, len(s), s[k] != c))
 //@   ensures imp(r == -1, forall(k, 0, len(s), s[k] != c))
+//@
+//@ # ---- request/response over NATS (C19) ----
+//@ # subopen: inbox subscriptions currently open; pubreq: requests published; tmn/tmdur/tmstop: timers created, duration of
+//@ # the timer created last, timers stopped
+//@ ghostvar subopen int
+//@ ghostvar pubreq int
+//@ ghostvar tmn int
+//@ ghostvar tmdur int
+//@ ghostvar tmstop int
+//@ trusted func nats.NewInbox() (s string)
+//@   ensures len(s) > 0
+//@ trusted func (c res.Conn) PublishRequest(subject string, reply string, data []byte) (err error)
+//@   modifies ghost.pubreq
+//@   ensures pubreq == old(pubreq) + 1
+//@ trusted func (s *nats.Subscription) Unsubscribe() (err error)
+//@   modifies ghost.subopen
+//@   ensures subopen == old(subopen) - 1
+//@ trusted func time.NewTimer(d time.Duration) (t *time.Timer)
+//@   modifies ghost.tmn, ghost.tmdur, alloc
+//@   ensures t != nil && tmn == old(tmn) + 1 && tmdur == d
+//@ trusted func (t *time.Timer) Stop() (ok bool)
+//@   modifies ghost.tmstop
+//@   ensures tmstop == old(tmstop) + 1
+//@ trusted func (tag reflect.StructTag) Lookup(key string) (value string, ok bool)
+//@   ensures true
+//@ trusted func strconv.Atoi(s string) (n int, err error)
+//@   ensures true
+//@ # NATS delivers non-nil messages on a channel subscription and never closes the channel
+//@ trusted func builtin.selectInbox(index int, ok bool, t time.Time, msg *nats.Msg)
+//@   ensures imp(index == 1, msg != nil)
+//@ trusted func time.Now() (t time.Time)
+//@   ensures true
+//@ trusted func (t time.Time) Add(d time.Duration) (r time.Time)
+//@   ensures true
+//@ trusted func (t time.Time) After(u time.Time) (b bool)
+//@   ensures true
+//@ trusted func (t time.Time) Before(u time.Time) (b bool)
+//@   ensures true
+//@ trusted func (t time.Time) Sub(u time.Time) (d time.Duration)
+//@   ensures true
+//@ trusted func time.Until(t time.Time) (d time.Duration)
+//@   ensures true
+//@ trusted func time.Since(t time.Time) (d time.Duration)
+//@   ensures true
